@@ -27,7 +27,7 @@ SIM = "deterministic simulation with fault injection: seeded search over task sc
 
 CHECKS = [
     wire("C02", "exploration",
-         "Seeded random/PCT schedules of the real Broker and Connection tasks with 2-4 scripted wire-level clients (versions 1.14-1.20) issuing overlapping calls, replies (owner, non-owner, duplicate, after abort), aborts, destruction and disconnects in five ways; every broker step is compared with a sequential reference model (pending-call tables in all three places) and every client's received stream must equal the model's (exactly one reply per accepted call, right content, right serial; nothing from non-owners).",
+         "Seeded random/PCT schedules of the real Broker and Connection tasks with 2-4 scripted wire-level clients (versions 1.14-1.20) issuing overlapping calls, replies (owner, non-owner, duplicate, after abort), aborts, destruction and disconnects in five ways; 96 directed call scenarios (owner version x caller version x owner's fate x abort timing) run first in every batch; every broker step is compared with a sequential reference model (pending-call tables in all three places) and every client's received stream must equal the model's (exactly one reply per accepted call, right content, right serial; nothing from non-owners).",
          "DESIGN.md section 5 C02", SIM + "lock-step refinement check against a reference model of the bus"),
     wire("C03", "exploration",
          "Same harness, workload biased to create/destroy of objects and services over 3x3 UUID pools with own/foreign/stale/never-issued cookies, queries and disconnects; registry state (both indexes, ownership, containment) equals the model after every broker step, every reply equals the model's, cookies are never reused.",
@@ -39,13 +39,13 @@ CHECKS = [
          "Part A (broker credit arithmetic and end state machine): create/claim/close/send-item/add-capacity/disconnect with capacities 0..u32::MAX, senders that respect or overrun their credit; credit announced to the sender is adopted from the broker and checked against invariants (announced<=granted, no stall, cut-off only on overrun, overflow closes only the receiver), item streams and notifications equal the model. Part B (every 4th run): real Sender/Receiver sessions between real clients on unbounded/bounded transports: the consumer must see exactly the produced sequence (a prefix if somebody closed early), producer and consumer must not deadlock (blocked-at-quiescence oracle), broker model in lock step.",
          "DESIGN.md section 5 C05", SIM + "history invariants over credit plus model comparison of the channel end state machine"),
     wire("C09", "fault_enumeration",
-         "Mixed bus activity with every connection ended at a random script position in one of five ways (clean Shutdown, transport error, EOF, shutdown_connection, Connection task dropped with requests still queued), plus broker shutdown / idle shutdown teardown in every run; after every broker step the internal snapshot is cross-reference consistent and equal to the model, gauges equal true counts, peers got each notification once, and at the end nothing is left and Broker::run / Connection::run have returned.",
+         "Mixed bus activity with every connection ended at a random script position in one of five ways (clean Shutdown, transport error, EOF, shutdown_connection, Connection task dropped with requests still queued), plus broker shutdown / idle shutdown teardown in every run, connection churn with late joiners and re-used connection ids in a fifth of the runs, 48 directed introspection-database scenarios first in every batch; after every broker step the internal snapshot is cross-reference consistent and equal to the model, gauges equal true counts, peers got each notification once, and at the end nothing is left and Broker::run / Connection::run have returned.",
          "DESIGN.md section 5 C09", SIM + "fault points placed in generated histories, state snapshot (hook H3) compared with a reference model after every step"),
     wire("C10", "exploration",
          "Listener create/destroy, all six filter shapes over the UUID pools, start/stop with the three scopes, object/service churn and disconnects; the model evaluates the plain filter predicate (written independently of the repository's) so the broker's incremental fast paths are checked for every add/remove history; tagged current events + finished marker and per-connection de-duplicated new events must equal the model. Every 4th run is an API-level run with real clients: ListenerRound programs (real BusListener objects with private UUIDs, started New/All, optional sibling listener of the same connection started Current and restarted) whose received event sequences are compared exactly.",
          "DESIGN.md section 5 C10", SIM + "lock-step refinement check against a reference model of bus listeners"),
     wire("C11", "exploration",
-         "1-2 abusing connections send arbitrary well-formed messages (all 63 kinds incl. wrong-direction ones, live/stale/foreign/never-issued cookies and serials, garbage payloads) next to conformant connections and a late-joining probe; no panic (debug assertions on), quiescence within the step cap, snapshot consistent after every step, conformant connections' whole streams equal the model's and they are not closed.",
+         "1-2 abusing connections send arbitrary well-formed messages (all 63 kinds incl. wrong-direction ones, live/stale/foreign/never-issued cookies and serials, garbage payloads) next to conformant connections and a late-joining probe (48 directed introspection-database scenarios first in every batch, a third of the runs concentrated on one subsystem); no panic (debug assertions on), quiescence within the step cap, snapshot consistent after every step, conformant connections' whole streams equal the model's and they are not closed.",
          "DESIGN.md section 5 C11", SIM + "abuse generator plus whole-stream model comparison for bystanders"),
     wire("C12", "exploration",
          "Handshake requests inside and outside 1.14..1.20 (legacy and new connect), every gated request kind sent below and above its gate, traffic between all version pairs with payloads of eight container shapes plus multi-segment byte strings, values nested at the depth limit and random value trees over all 43 value variants; handshake outcome and negotiated version by the rule in the statement, gate => connection closed, monitor on every broker->client message (no kind newer than the client's version, no 1.20 encoding to a <1.20 client via an independent byte walker), payloads equal as decoded values.",
@@ -82,7 +82,7 @@ CHECKS.append(api("C06", "exploration",
     "Real Broker, Connection, ClientBuilder/Client and every client-side type run under the deterministic executor with 2-4 clients (versions 1.14-1.20; core::channel unbounded / bounded(1,2,4,16) or the simulated pipe) whose application tasks interpret random closed programs over the public API, with calls dropped or cancelled mid-flight, establish cancelled, spurious polls and Pending-injecting transports. Oracle: no Client::run returns UnexpectedMessageReceived (or any error), no poll of repository code panics (debug assertions on) or fails to return, at the first quiescence no task is blocked in an operation whose peer has acted (lost wake-up / deadlock), awaited calls return the value computed for that call, channel sessions deliver the produced sequence, an introspection query returns exactly the registered description whenever the type is registered locally or by a client connected throughout, every task has completed after all clients shut down and shutdown_idle makes Broker::run return; the broker model runs in lock step.",
     "DESIGN.md section 5 C06", SIM.replace("broker/connection", "broker/connection/client") + "quiescence-based liveness oracle, result consistency checks"))
 CHECKS.append(api("C15", "fault_enumeration",
-    "The C06 programs plus one termination of a victim client per run: transport error or EOF at transport-operation index k (k a per-run fraction of the victim's operation count measured in a fault-free execution of the same plan) or Handle::shutdown / all handles dropped / BrokerHandle::shutdown / shutdown_connection applied at operation count k; 12 (quick) or 96 (thorough) (cause, k, schedule) variants per generated program. Oracle: the victim's Client::run returns Ok for clean causes and the injected transport error otherwise, no task of the victim is still blocked once run() has returned, nothing panics, every task has completed at the end, Connection::run returned and the broker model holds nothing of the victim, other clients finish.",
+    "The C06 programs plus one termination of a victim client per run: transport error or EOF at transport-operation index k (k a per-run fraction of the victim's operation count measured in a fault-free execution of the same plan) or Handle::shutdown / all handles dropped / BrokerHandle::shutdown / shutdown_connection / broker shutdown combined with a failing send direction, applied at operation count k; 16 (quick) or 112 (thorough) (cause, k, schedule) variants per generated program. Oracle: the victim's Client::run returns Ok for clean causes and the injected transport error otherwise (Ok after a failed send-side operation, or after a receive failure that preceded the broker's Shutdown, is a violation), no task of the victim is still blocked once run() has returned, nothing panics, every task has completed at the end, Connection::run returned and the broker model holds nothing of the victim, other clients finish.",
     "DESIGN.md section 5 C15", SIM.replace("broker/connection", "broker/connection/client") + "fault points placed relative to a fault-free dry run of the same plan"))
 CHECKS.append(api("C19", "exploration",
     "Mutator tasks create/destroy objects and services over 3x3 UUID pools (re-creation under the same UUID, partial service sets, services before/after discoverer start) while observers run discoverers with 1-3 entries of all four kinds, restart them, drain events at random rates, use find_object / wait_for_object and lifetime scopes. At quiescence every non-current-only discoverer entry must report exactly the matching objects of the broker model with current cookies and service ids, its event stream (cut at restarts) alternates created/destroyed per object over incarnations that existed and adds up to the reported state; a Lifetime has resolved iff its scope object is gone and never resolved earlier; find/wait results existed within the call window.",
